@@ -5,6 +5,8 @@ import Ledger.Proofs.MachineFunding
     `repay`, `credit`) and on posting sums. -/
 namespace Ledger.Machine
 
+variable {cfg : Cfg}
+
 /-- Funds of account `a` inside a part list. -/
 def acctTotal (a : String) (ps : List Part) : Int := totalOf (fun x => x == a) ps
 
